@@ -265,7 +265,8 @@ def finish(prop, tier, seed, packs, results, t0, a):
         "wall_s": round(time.time() - t0, 2),
         "violations": len(violations),
     }
-    if not a.only:
+    # evidence is only written by complete runs against /repo itself (tools/eval_mutant.sh analyses scratch trees)
+    if not a.only and not os.environ.get("VERIF_NO_EVIDENCE"):
         os.makedirs(os.path.join(ROOT, "evidence"), exist_ok=True)
         json.dump(ev, open(os.path.join(ROOT, "evidence", prop + ".json"), "w"), indent=1, default=str)
     for ln in lines:
